@@ -42,9 +42,10 @@ type simServerConn struct {
 }
 
 type farm struct {
-	mu    sync.Mutex
-	conns []*simServerConn
-	fail  bool // dialer fails
+	mu       sync.Mutex
+	conns    []*simServerConn
+	fail     bool // dialer fails
+	closeErr bool // dialed connections close, but report an error from Close (like TLS on a cut link)
 }
 
 func (f *farm) DialContext(ctx context.Context, network, addr string) (net.Conn, error) {
@@ -54,6 +55,9 @@ func (f *farm) DialContext(ctx context.Context, network, addr string) (net.Conn,
 		return nil, errors.New("dial refused")
 	}
 	c := simnet.NewConn()
+	if f.closeErr {
+		c.CloseErr = errors.New("close: broken pipe")
+	}
 	sc := &simServerConn{id: len(f.conns), conn: c, dialedAt: time.Now()}
 	sc.srv = simnet.NewServer(c, 54460)
 	hello := ref.ServerHello{Name: "SimHouse", Major: 23, Minor: 8, Revision: 54460, DisplayName: fmt.Sprintf("conn-%d", sc.id), Timezone: "UTC"}
@@ -165,7 +169,7 @@ func TestC11Pool(t *testing.T) {
 }
 
 func runC11(rt *rapid.T, st *stats.Collector) {
-	f := &farm{}
+	f := &farm{closeErr: rapid.IntRange(0, 3).Draw(rt, "close-returns-error") == 0}
 	maxConns := rapid.IntRange(1, 4).Draw(rt, "max-conns")
 	minConns := rapid.IntRange(0, min(2, maxConns)).Draw(rt, "min-conns")
 	lifetime := time.Duration(rapid.SampledFrom([]int{200, 1000, 60000}).Draw(rt, "lifetime-ms")) * time.Millisecond
@@ -401,6 +405,24 @@ func runC11(rt *rapid.T, st *stats.Collector) {
 				rt.Fatalf("pool.%s failed: %v (a dead or expired connection was issued)\nhistory: %s", kind, err, history())
 			}
 		},
+		"churn": func(rt *rapid.T) {
+			// Many acquire/release cycles (handle objects are allocated in batches per connection);
+			// the stale handles stay in the list and may be released again later.
+			if closed || len(live()) >= maxConns || rapid.IntRange(0, 2).Draw(rt, "really-churn") > 0 {
+				rt.Skip("not now")
+			}
+			n := rapid.SampledFrom([]int{63, 64, 65, 66, 130}).Draw(rt, "churn")
+			for i := 0; i < n; i++ {
+				c, err := p.Acquire(context.Background())
+				if err != nil {
+					rt.Fatalf("churn acquire %d failed: %v\nhistory: %s", i, err, history())
+				}
+				h := &handle{id: len(handles), c: c, conn: -1, released: true}
+				handles = append(handles, h)
+				c.Release()
+			}
+			note("churn(%d)", n)
+		},
 		"burst": func(rt *rapid.T) {
 			if closed {
 				rt.Skip("closed")
@@ -489,7 +511,7 @@ func TestC12PoolRaces(t *testing.T) {
 	rapid.Check(t, func(rt *rapid.T) {
 		workers := rapid.IntRange(2, 8).Draw(rt, "workers")
 		maxConns := rapid.IntRange(1, 4).Draw(rt, "max-conns")
-		iters := rapid.IntRange(1, 6).Draw(rt, "iterations")
+		iters := rapid.OneOf(rapid.IntRange(1, 6), rapid.IntRange(10, 40)).Draw(rt, "iterations")
 		kinds := rapid.SliceOfN(rapid.SampledFrom([]string{"OK", "OK", "EXC", "CUT", "EXCCUT", "PING", "HOLD", "INS", "INS", "INS"}), 16, 16).Draw(rt, "kinds")
 		comp := rapid.SampledFrom([]ch.Compression{ch.CompressionDisabled, ch.CompressionLZ4, ch.CompressionLZ4, ch.CompressionZSTD, ch.CompressionLZ4HC}).Draw(rt, "compression")
 		rapid.SyncTest(rt, func(rt *rapid.T) {
@@ -507,6 +529,7 @@ func TestC12PoolRaces(t *testing.T) {
 				wg.Add(1)
 				go func(w int) {
 					defer wg.Done()
+					var stale []*chpool.Client
 					for i := 0; i < iters; i++ {
 						ctx, cancel := context.WithTimeout(context.Background(), 500*time.Millisecond)
 						switch k := kinds[(w*7+i)%len(kinds)]; k {
@@ -524,6 +547,12 @@ func TestC12PoolRaces(t *testing.T) {
 								time.Sleep(3 * time.Millisecond)
 								_ = p.Stat().TotalResources()
 								c.Release()
+								stale = append(stale, c)
+							}
+							// releasing handles again is allowed at any later time
+							if len(stale) > 2 {
+								stale[0].Release()
+								stale = stale[1:]
 							}
 						default:
 							_ = p.Do(ctx, ch.Query{Body: k})
